@@ -419,7 +419,9 @@ func (c *senderCtx) queueElem(v ssa.Value, field string) *ssa.IndexAddr {
 	for i := 0; i < 4; i++ {
 		switch b := base.(type) {
 		case *ssa.IndexAddr:
-			if ld, ok := b.X.(*ssa.UnOp); ok && ld.Op == token.MUL && core.Cell(ld.X) == c.queue {
+			// the slice indexed: a load of the queue cell, also when it reached a helper with one call site as a
+			// parameter (the parameter stands for the argument of that call)
+			if ld, ok := core.Unwrap(b.X).(*ssa.UnOp); ok && ld.Op == token.MUL && core.Cell(ld.X) == c.queue {
 				return b
 			}
 			return nil
